@@ -196,6 +196,9 @@ func (tr TranslationConfig) translatePackage(pkg *packages.Package) (coq.File, e
 			"could not load package %v:\n%v", pkg.PkgPath,
 			pkgErrors(pkg.Errors))
 	}
+	if _, err := getFfi(pkg); err != nil {
+		return coq.File{}, err
+	}
 	ctx := NewPkgCtx(pkg, tr)
 	files := sortedFiles(pkg.CompiledGoFiles, pkg.Syntax)
 
